@@ -376,6 +376,20 @@ def vp8Sec (mid : String) (exts : List Attr) : Media :=
 
 def trx (k : Kind) (mid : String) : TrxView := { kind := k, mid := some mid.toList, dir := .sendrecv, hasSender := false, hasSenderSsrc := false }
 
+def pcmuActive : Media :=
+  { kind := .audio, mid := "0".toList, port := 9, proto := "UDP/TLS/RTP/SAVPF".toList, formats := ["0".toList],
+    dir := .sendrecv, connection := none,
+    attrs := [flag "rtcp-mux", attr "rtpmap" "0 PCMU/8000".toList, attr "setup" "active".toList] }
+
+/-- **Witness (subsequent negotiations)** — the role is cached by the first negotiation; a re-offer in
+which the offerer takes the role the answerer holds is answered with that same role. -/
+theorem sticky_role_answers_offerers_own_role :
+    setupCompatible (some "active".toList) (setupValue (some true)) = false ∧
+    setupCompatible (some "passive".toList) (setupValue (some false)) = false ∧
+    (∃ a, answer cfgDefault [trx .audio "0"] 1 true (some true) (some (mkOffer [] [pcmuActive])) = .ok a ∧
+          zipAll secSetupOk [pcmuActive] a.sections = false) := by
+  refine ⟨by decide, by decide, _, rfl, by decide⟩
+
 /-- **first_answer_ignores_offer_codecs** — a PCMU-only offer is answered with `111 opus` on a first
 negotiation: the answer lists the locally configured codecs whatever the offer contained. -/
 theorem first_answer_ignores_offer_codecs :
